@@ -32,7 +32,7 @@ COMPONENTS = {"real": ["ECAgent.Collectors.AgentCollector.collect", "FileCollect
                        "overflow/finalisation; crash drops buffers)", "mutator systems and collect() bodies are harness code"]}
 PROBES = ["empty_record_suppressed", "collector_off_window", "removed_by_higher_priority_same_step",
           "added_by_higher_priority_same_step", "changed_after_collector_turn", "composite_used", "value_zero_recorded",
-          "crash_at_flush_boundary", "crash_mid_flush", "real_file", "composite_shared_dict", "empty_string_record", "environment_replaced", "empty_collection", "empty_flush",
+          "crash_at_flush_boundary", "crash_mid_flush", "real_file", "composite_shared_dict", "empty_string_record", "environment_replaced", "system_removed_next_to_collector", "empty_collection", "empty_flush",
           "preexisting_content", "two_file_collectors", "buffer_overflow_mid_flush"]
 TECHNIQUE = "deterministic simulation: population changing on a seeded schedule inside timesteps vs a replaying reference; simulated disk with crash points and the conservation invariant file + held = collected"
 LEVEL_TEXT = ("Seeded search over population-change schedules, collector windows and disk behaviour; after every timestep the "
@@ -78,8 +78,10 @@ def gen_agent_arm(rng, tier):
                 fresh[0] += 1
             elif r < 0.7:
                 out.append({"t": t, "op": "remove", "k": rng.randrange(8)})
-            else:
+            elif r < 0.93:
                 out.append({"t": t, "op": "set", "k": rng.randrange(8), "v": rng.randint(-3, 5)})
+            else:
+                out.append({"t": t, "op": "drop_system", "k": rng.randrange(3)})   # a mutator system is removed
         return out
     mutators = [{"id": f"m{i}", "prio": rng.choice([3, 1, 0, 0, -1, -1, -2, -5]), "script": script(rng.randint(1, 6))}
                 for i in range(rng.randint(1, 3))]
@@ -159,10 +161,17 @@ class Mutator(System):
 class AgentWorld:
     def __init__(self, model, ctx):
         self.model, self.ctx = model, ctx
+        self.mutator_ids = []
 
     def apply_real(self, act):
         env = self.model.environment
         ids = list(env.agents)
+        if act["op"] == "drop_system":
+            ids = [sid for sid in self.mutator_ids if self.model.systems[sid] is not None]
+            if ids:
+                self.model.systems.remove_system(ids[act["k"] % len(ids)])
+                self.ctx.probe("system_removed_next_to_collector")
+            return
         if act["op"] == "swap_env":
             # the model gets a NEW environment object holding the same agents (Model.set_environment)
             from ECAgent.Core import Environment
@@ -190,6 +199,8 @@ class AgentWorld:
 
 def apply_ref(pop, act):
     ids = list(pop)
+    if act["op"] in ("drop_system", "swap_env"):
+        return None
     if act["op"] == "add":
         if act["id"] not in pop:
             pop[act["id"]] = act["v"]
@@ -227,6 +238,7 @@ def run_agent_arm(sc, ctx):
             continue
         if kind == "m":
             obj = Mutator(s, m, w)
+            w.mutator_ids.append(s["id"])
             rs = {"id": s["id"], "prio": s["prio"], "start": 0, "end": MAXSIZE, "freq": 1, "kind": "m"}
         else:
             if s["freq"] < 1:
@@ -260,12 +272,21 @@ def run_agent_arm(sc, ctx):
     for t in range(min(int(sc["steps"]), 60)):
         for act in sc["between"]:
             if act["t"] == t:
+                if act["op"] == "drop_system":
+                    live_m = [x["id"] for x in ref.q if x["kind"] == "m"]
+                    # same choice rule as the real side: ids of still-registered mutators in registration order
+                    order = [sid for sid in w.mutator_ids if sid in live_m]
+                    if order:
+                        ref.remove(order[act["k"] % len(order)])
                 w.apply_real(act)
                 apply_ref(pop, act)
         before = {cid: copy.deepcopy(c.records) for cid, c in cols.items()}
         changed_in_step = []
         collected_in_step = False
-        for rs in ref.q:
+        dropped_now = set()
+        for rs in list(ref.q):
+            if rs["id"] in dropped_now:
+                continue          # removed earlier in this very timestep: it does not run any more
             if not ref.eligible(rs, t):
                 if rs["kind"] == "c":
                     ctx.probe("collector_off_window")
@@ -273,6 +294,12 @@ def run_agent_arm(sc, ctx):
             if rs["kind"] == "m":
                 for act in specs[rs["id"]]["script"]:
                     if act["t"] == t:
+                        if act["op"] == "drop_system":
+                            live_m = [x["id"] for x in ref.q if x["kind"] == "m" and x["id"] not in dropped_now]
+                            order = [sid for sid in w.mutator_ids if sid in live_m]
+                            if order:
+                                dropped_now.add(order[act["k"] % len(order)])
+                            continue
                         eff = apply_ref(pop, act)
                         if eff:
                             changed_in_step.append(eff)
@@ -306,6 +333,8 @@ def run_agent_arm(sc, ctx):
                     if "add" in changed_in_step:
                         ctx.probe("added_by_higher_priority_same_step")
                 shape.append([len(pop), len(changed_in_step), len(rec)])
+        for sid in dropped_now:
+            ref.remove(sid)
         ctx.expect_ok("step", m.execute)
         ctx.sim_time += 1
         for cid, c in cols.items():
